@@ -9,7 +9,7 @@ Open Scope bool_scope.
 
 (* ---- the state monad ---- *)
 Lemma sys_run op s : sys op s =
-  ({| s_fs := fst (op (s_fs s)); s_links := s_links s; s_reads := s_reads s |}, inl (snd (op (s_fs s)))).
+  ({| s_fs := fst (op (s_fs s)); s_links := s_links s; s_parents := s_parents s; s_reads := s_reads s |}, inl (snd (op (s_fs s)))).
 Proof. unfold sys. destruct (op (s_fs s)); reflexivity. Qed.
 
 Lemma bind_run {A B} (m : M A) (k : A -> M B) s :
@@ -19,7 +19,7 @@ Proof. reflexivity. Qed.
 Lemma expect_ok_run r s : expect_ok r s = (s, match r with ROk | RFd _ => inl tt | _ => inr E_SYS end).
 Proof. destruct r; reflexivity. Qed.
 
-Definition mk (s : cst) (f : fs) : cst := {| s_fs := f; s_links := s_links s; s_reads := s_reads s |}.
+Definition mk (s : cst) (f : fs) : cst := {| s_fs := f; s_links := s_links s; s_parents := s_parents s; s_reads := s_reads s |}.
 
 Section Copy.
   Variables (c : ctx) (f0 : fs) (dr : N) (dcs : list bytes).
@@ -41,26 +41,28 @@ Section Copy.
 
   (* a step that stays at or below directory d *)
   Definition stays (d : N) (s s' : cst) : Prop :=
-    Ctx (s_fs s') /\ above d (s_fs s) (s_fs s') /\ (lok s -> lok s') /\ keeps_new (s_fs s) (s_fs s').
+    Ctx (s_fs s') /\ above d (s_fs s) (s_fs s') /\ (lok s -> lok s') /\ keeps_new (s_fs s) (s_fs s') /\
+    s_parents s' = s_parents s.
 
   Lemma stays_refl d s : Ctx (s_fs s) -> stays d s s.
-  Proof. intros C. split; auto. split; [apply above_refl|]. split; [auto|apply keeps_new_refl]. Qed.
+  Proof. intros C. split; auto. split; [apply above_refl|]. split; [auto|]. split; [apply keeps_new_refl|reflexivity]. Qed.
 
   Lemma stays_trans d s1 s2 s3 : is_dir (s_fs s1) d = true -> stays d s1 s2 -> stays d s2 s3 -> stays d s1 s3.
   Proof.
-    intros Hd (C2 & A2 & L2 & K2) (C3 & A3 & L3 & K3). split; auto. split; [eapply above_trans; eauto|].
-    split; [auto|eapply keeps_new_trans; eauto].
+    intros Hd (C2 & A2 & L2 & K2 & P2) (C3 & A3 & L3 & K3 & P3). split; auto. split; [eapply above_trans; eauto|].
+    split; [auto|]. split; [eapply keeps_new_trans; eauto|congruence].
   Qed.
 
-  Lemma stays_same d s s' : Ctx (s_fs s) -> s_fs s' = s_fs s -> s_links s' = s_links s -> stays d s s'.
+  Lemma stays_same d s s' : Ctx (s_fs s) -> s_fs s' = s_fs s -> s_links s' = s_links s -> s_parents s' = s_parents s ->
+    stays d s s'.
   Proof.
-    intros C E1 E2. split; [rewrite E1; auto|]. split; [rewrite E1; apply above_refl|].
-    split; [unfold lok; rewrite E1, E2; auto|rewrite E1; apply keeps_new_refl].
+    intros C E1 E2 E3. split; [rewrite E1; auto|]. split; [rewrite E1; apply above_refl|].
+    split; [unfold lok; rewrite E1, E2; auto|]. split; [rewrite E1; apply keeps_new_refl|exact E3].
   Qed.
 
   Lemma stays_grows d s f : Ctx f -> above d (s_fs s) f -> grows (s_fs s) f -> keeps_new (s_fs s) f -> stays d s (mk s f).
   Proof.
-    intros C A G K. split; auto. split; auto. split; auto. unfold lok. simpl. intros H. eapply links_ok_grows; eauto.
+    intros C A G K. split; auto. split; auto. split; [|split; auto]. unfold lok. simpl. intros H. eapply links_ok_grows; eauto.
   Qed.
 
   Lemma stays_meta d s f : meta_post (s_fs s) f -> stays d s (mk s f).
@@ -69,7 +71,7 @@ Section Copy.
   Lemma stays_shrinks s f cs d x : Tgt (s_fs s) cs d x -> Ctx f -> above d (s_fs s) f -> shrinks (s_fs s) f d x ->
     keeps_new (s_fs s) f -> forgotten s (tpath cs x) -> stays d s (mk s f).
   Proof.
-    intros T C A S K Hf. split; auto. split; auto. split; auto. unfold lok. simpl. intros H e He.
+    intros T C A S K Hf. split; auto. split; auto. split; [|split; auto]. unfold lok. simpl. intros H e He.
     eapply (link_ok_shrinks c f0 dr dcs (s_fs s) f cs d x); eauto; try apply T.
   Qed.
 
@@ -93,6 +95,19 @@ Section Copy.
     rewrite sys_lstat_fs in H.
     destruct (snd (sys_lstat c (s_fs s) (tpath cs x))) as [|e|i n| | |]; try (inversion H; subst; simpl; auto).
     destruct e; inversion H; subst; simpl; auto.
+  Qed.
+
+  Lemma lstat_opt_parents p s s' r : lstat_opt c p s = (s', r) -> s_parents s' = s_parents s.
+  Proof.
+    unfold lstat_opt. rewrite bind_run, sys_run. cbn [fst snd].
+    destruct (snd (sys_lstat c (s_fs s) p)) as [|e|i n| | |]; try (intros H; inversion H; subst; reflexivity).
+    destruct e; intros H; inversion H; subst; reflexivity.
+  Qed.
+  Lemma lstat_opt_nd_parents p s s' r : lstat_opt_nd c p s = (s', r) -> s_parents s' = s_parents s.
+  Proof.
+    unfold lstat_opt_nd. rewrite bind_run, sys_run. cbn [fst snd].
+    destruct (snd (sys_lstat c (s_fs s) p)) as [|e|i n| | |]; try (intros H; inversion H; subst; reflexivity).
+    destruct e; intros H; inversion H; subst; reflexivity.
   Qed.
 
   (* a lookup of a target path cannot report ENOTDIR *)
@@ -156,6 +171,7 @@ Section Copy.
     intros T Hpre H. unfold ensure_empty_file_target in H. rewrite bind_run in H.
     destruct (lstat_opt c (tpath cs x) s) as [s1 [o|e]] eqn:E1.
     - destruct (lstat_opt_spec s s1 _ cs d x T E1) as (F1 & L1 & P1).
+      pose proof (lstat_opt_parents _ _ _ _ E1) as Q1.
       assert (S1 : stays d s s1) by (apply stays_same; auto; apply T).
       destruct o as [[i n]|].
       + destruct P1 as [Pb Pg]. destruct (kind_is_dir n).
@@ -169,11 +185,12 @@ Section Copy.
           intros Hr. apply absent_none. auto.
       + injection H as <- <-. split; auto. split; auto. intros _. rewrite F1. exact P1.
     - injection H as <- <-. destruct (lstat_opt_spec s s1 _ cs d x T E1) as (F1 & L1 & _).
+      pose proof (lstat_opt_parents _ _ _ _ E1) as Q1.
       split; [apply stays_same; auto; apply T|]. split; auto. discriminate.
   Qed.
 
   Lemma forget_links_run p s : forget_links p s =
-    ({| s_fs := s_fs s; s_links := filter (fun e => negb (forget_path p (snd e))) (s_links s); s_reads := s_reads s |}, inl tt).
+    ({| s_fs := s_fs s; s_links := filter (fun e => negb (forget_path p (snd e))) (s_links s); s_parents := s_parents s; s_reads := s_reads s |}, inl tt).
   Proof. reflexivity. Qed.
 
   Lemma forget_links_spec p s d : Ctx (s_fs s) ->
@@ -181,7 +198,7 @@ Section Copy.
     stays d s s' /\ forgotten s' p /\ s_fs s' = s_fs s.
   Proof.
     intros C s'. unfold s'. rewrite forget_links_run. cbn [fst]. split; [|split; [|reflexivity]].
-    - split; [exact C|]. split; [apply above_refl|]. split; [|apply keeps_new_refl]. unfold lok. simpl. intros H e He.
+    - split; [exact C|]. split; [apply above_refl|]. split; [|split; [apply keeps_new_refl|reflexivity]]. unfold lok. simpl. intros H e He.
       apply filter_In in He. apply H. apply He.
     - intros e He. simpl in He. apply filter_In in He. destruct He as [_ He]. apply negb_true_iff in He. exact He.
   Qed.
@@ -197,7 +214,7 @@ Section Copy.
     rewrite bind_run, forget_links_run in H.
     destruct (forget_links_spec (tpath cs x) s d (tg_ctx _ _ _ _ _ _ _ _ T)) as (S0 & F0 & E0).
     rewrite forget_links_run in S0, F0, E0. cbn [fst] in S0, F0, E0.
-    set (s0 := {| s_fs := s_fs s; s_links := _; s_reads := s_reads s |}) in *.
+    set (s0 := {| s_fs := s_fs s; s_links := _; s_parents := _; s_reads := s_reads s |}) in *.
     rewrite bind_run, sys_run in H. cbn [fst snd] in H. change (s_fs s0) with (s_fs s) in H.
     destruct (sys_remove_all c (s_fs s) (tpath cs x)) as [f1 r1] eqn:E1. cbn [fst snd] in H.
     pose proof (s_remove_all c f0 dr dcs _ cs d x f1 r1 T E1) as Sh1.
@@ -220,8 +237,10 @@ Section Copy.
     intros T H. unfold copy_directory_only in H. rewrite bind_run in H.
     destruct (lstat_opt c (tpath cs x) s) as [s1 [o|e]] eqn:E1.
     2:{ injection H as <- <-. destruct (lstat_opt_spec s s1 _ cs d x T E1) as (F1 & L1 & _).
+        pose proof (lstat_opt_parents _ _ _ _ E1) as Q1.
         split; [apply stays_same; auto; apply T|]. split; auto. discriminate. }
     destruct (lstat_opt_spec s s1 _ cs d x T E1) as (F1 & L1 & P1).
+    pose proof (lstat_opt_parents _ _ _ _ E1) as Q1.
     assert (S1 : stays d s s1) by (apply stays_same; auto; apply T).
     assert (T1 : Tgt (s_fs s1) cs d x) by (rewrite F1; auto).
     assert (Hd : is_dir (s_fs s) d = true) by (eapply tgt_dir; eauto).
@@ -260,21 +279,21 @@ Section Copy.
 
   (* ---- metadata of the target: copyFileTimestamp / copyFileInfo / copyXAttrs ---- *)
   (* the name x stands for the SS inode i throughout *)
-  Definition mstep (s s' : cst) : Prop := meta_post (s_fs s) (s_fs s') /\ s_links s' = s_links s.
+  Definition mstep (s s' : cst) : Prop := meta_post (s_fs s) (s_fs s') /\ s_links s' = s_links s /\ s_parents s' = s_parents s.
 
   Lemma mstep_refl s : Ctx (s_fs s) -> mstep s s.
   Proof. intros C. split; auto. apply meta_post_refl; auto. Qed.
-  Lemma mstep_same s s' : Ctx (s_fs s) -> s_fs s' = s_fs s -> s_links s' = s_links s -> mstep s s'.
-  Proof. intros C E1 E2. split; auto. rewrite E1. apply meta_post_refl; auto. Qed.
+  Lemma mstep_same s s' : Ctx (s_fs s) -> s_fs s' = s_fs s -> s_links s' = s_links s -> s_parents s' = s_parents s -> mstep s s'.
+  Proof. intros C E1 E2 E3. split; auto. rewrite E1. apply meta_post_refl; auto. Qed.
   Lemma mstep_trans s1 s2 s3 : mstep s1 s2 -> mstep s2 s3 -> mstep s1 s3.
-  Proof. intros [A1 B1] [A2 B2]. split; [eapply meta_post_trans; eauto|congruence]. Qed.
+  Proof. intros (A1 & B1 & P1) (A2 & B2 & P2). split; [eapply meta_post_trans; eauto|split; congruence]. Qed.
   Lemma mstep_mk s f : meta_post (s_fs s) f -> mstep s (mk s f).
   Proof. intros H. split; auto. Qed.
 
   Lemma mstep_stays d s s' : mstep s s' -> stays d s s'.
   Proof.
-    intros [M E]. pose proof (k_meta c f0 dr dcs _ _ M) as K.
-    destruct M as (C & A & _ & _ & _ & _ & _ & G). split; auto. split; auto. split; auto.
+    intros (M & E & Ep). pose proof (k_meta c f0 dr dcs _ _ M) as K.
+    destruct M as (C & A & _ & _ & _ & _ & _ & G). split; auto. split; auto. split; [|split; auto].
     unfold lok. rewrite E. intros H. eapply links_ok_grows; eauto.
   Qed.
 
@@ -282,10 +301,10 @@ Section Copy.
   Proof. intros T M. eapply tgt_stays; eauto. eapply mstep_stays; eauto. Qed.
 
   Lemma mstep_names s s' d x i : names_ss (s_fs s) d x i -> mstep s s' -> names_ss (s_fs s') d x i.
-  Proof. intros H [M _]. eapply names_ss_meta; eauto. Qed.
+  Proof. intros H (M & _). eapply names_ss_meta; eauto. Qed.
 
   Lemma mstep_link s s' i : mstep s s' -> FsP.is_link (s_fs s') i = FsP.is_link (s_fs s) i.
-  Proof. intros [(_ & _ & _ & _ & L & _) _]. apply L. Qed.
+  Proof. intros ((_ & _ & _ & _ & L & _) & _). apply L. Qed.
 
   Lemma copy_file_timestamp_spec s s' r cs d x i o fi : Tgt (s_fs s) cs d x -> names_ss (s_fs s) d x i ->
     copy_file_timestamp c o fi (tpath cs x) s = (s', r) -> mstep s s'.
@@ -338,7 +357,7 @@ Section Copy.
       eapply mstep_trans; [exact S1|]. eapply IH; [eapply mstep_tgt; eauto|eapply mstep_names; eauto|eauto].
   Qed.
 
-  Lemma log_read_run i s : log_read i s = ({| s_fs := s_fs s; s_links := s_links s; s_reads := i :: s_reads s |}, inl tt).
+  Lemma log_read_run i s : log_read i s = ({| s_fs := s_fs s; s_links := s_links s; s_parents := s_parents s; s_reads := i :: s_reads s |}, inl tt).
   Proof. reflexivity. Qed.
 
   Lemma copy_xattrs_spec s s' r cs d x i src : Tgt (s_fs s) cs d x -> names_ss (s_fs s) d x i ->
@@ -349,7 +368,7 @@ Section Copy.
     destruct (snd (sys_lstat c (s_fs s) src)) as [|e|j n| | |];
       try (unfold fail in H; injection H as <- <-; apply mstep_same; auto; apply T).
     rewrite bind_run, log_read_run in H.
-    set (s1 := {| s_fs := s_fs s; s_links := s_links s; s_reads := j :: s_reads s |}) in *.
+    set (s1 := {| s_fs := s_fs s; s_links := s_links s; s_parents := s_parents s; s_reads := j :: s_reads s |}) in *.
     assert (M1 : mstep s s1) by (apply mstep_same; auto; apply T).
     eapply mstep_trans; [exact M1|]. eapply (set_xattrs_spec _ s1); eauto.
   Qed.
@@ -372,7 +391,7 @@ Section Copy.
     destruct (get (s_fs s) j) as [[[p0 es|data|t|ty rd] m]|];
       try (unfold fail in H; injection H as <- <-; split; [apply stays_refl; apply T|split; auto; split; [apply grows_refl|discriminate]]).
     rewrite bind_run, log_read_run in H.
-    set (s1 := {| s_fs := s_fs s; s_links := s_links s; s_reads := j :: s_reads s |}) in *.
+    set (s1 := {| s_fs := s_fs s; s_links := s_links s; s_parents := s_parents s; s_reads := j :: s_reads s |}) in *.
     assert (S1 : stays d s s1) by (apply stays_same; auto; apply T).
     rewrite bind_run, sys_run in H. cbn [fst snd] in H. change (s_fs s1) with (s_fs s) in H.
     destruct (sys_open_wronly c (s_fs s) (tpath cs x) true 438) as [f2 r2] eqn:E2. cbn [fst snd] in H.
@@ -391,7 +410,7 @@ Section Copy.
     assert (Hbi : b <= i) by apply Hc.
     rewrite bind_run, sys_run in H. cbn [fst snd] in H.
     pose proof (t_fd_truncate c f0 dr dcs (s_fs (mk s1 f2)) i C2 Hbi) as M3.
-    set (s3 := {| s_fs := fd_truncate (s_fs (mk s1 f2)) i; s_links := _; s_reads := _ |}) in H.
+    set (s3 := {| s_fs := fd_truncate (s_fs (mk s1 f2)) i; s_links := _; s_parents := _; s_reads := _ |}) in H.
     assert (S3 : mstep (mk s1 f2) s3) by (split; auto).
     rewrite bind_run, sys_run in H. cbn [fst snd] in H.
     destruct (fd_pwrite (s_fs s3) i 0 data) as [f4 r4] eqn:E4. cbn [fst snd] in H.
@@ -414,7 +433,7 @@ Section Copy.
     Ctx (s_fs s') /\ above d (s_fs s) (s_fs s') /\ (ok_res r -> lok s -> lok s') /\ keeps_new (s_fs s) (s_fs s').
 
   Lemma stays_stays_ok {A} d s s' (r : A + N) : stays d s s' -> stays_ok d s s' r.
-  Proof. intros (C & A0 & L & K). split; auto. Qed.
+  Proof. intros (C & A0 & L & K & _). split; auto. Qed.
 
   Lemma link_ok_tgt f p : Ctx f -> link_ok f p -> exists cs x d i, p = tpath cs x /\ Tgt f cs d x /\
     blookup x (dents f d) = Some i /\ b <= i /\ isfile f i.
@@ -431,16 +450,16 @@ Section Copy.
 
   Lemma copy_regular_spec s s' r cs d x src ino : Tgt (s_fs s) cs d x -> absent (s_fs s) d x -> lok s ->
     copy_regular c src (tpath cs x) ino s = (s', r) ->
-    stays_ok d s s' r /\ (r = inl tt -> made s' d x).
+    stays_ok d s s' r /\ s_parents s' = s_parents s /\ (r = inl tt -> made s' d x).
   Proof.
     intros T Hab L H. unfold copy_regular in H. rewrite bind_run in H. unfold get_fs at 1 in H.
-    assert (Hplain : forall s0 s1 r1, s_fs s0 = s_fs s -> (lok s -> lok s0) -> s_links s0 = s_links s ->
-              copy_file c src (tpath cs x) s0 = (s1, r1) -> stays_ok d s s1 r1 /\ (r1 = inl tt -> made s1 d x)).
-    { intros s0 s1 r1 E0 L0 EL H1.
+    assert (Hplain : forall s0 s1 r1, s_fs s0 = s_fs s -> (lok s -> lok s0) -> s_links s0 = s_links s -> s_parents s0 = s_parents s ->
+              copy_file c src (tpath cs x) s0 = (s1, r1) -> stays_ok d s s1 r1 /\ s_parents s1 = s_parents s /\ (r1 = inl tt -> made s1 d x)).
+    { intros s0 s1 r1 E0 L0 EL EP H1.
       assert (T0 : Tgt (s_fs s0) cs d x) by (rewrite E0; auto).
       assert (Hab0 : absent (s_fs s0) d x) by (rewrite E0; auto).
-      destruct (copy_file_spec s0 s1 r1 cs d x src T0 Hab0 H1) as ((C1 & A1 & L1 & K1) & EL1 & _ & P1).
-      split; [split; auto; split; [rewrite <- E0; auto|split; [auto|rewrite <- E0; auto]]|].
+      destruct (copy_file_spec s0 s1 r1 cs d x src T0 Hab0 H1) as ((C1 & A1 & L1 & K1 & Q1) & EL1 & _ & P1).
+      split; [split; auto; split; [rewrite <- E0; auto|split; [auto|rewrite <- E0; auto]]|]. split; [congruence|].
       intros Hr. destruct (P1 Hr) as (i & Hn & Hbi & Hf). exists i. split; auto. split; auto. apply isfile_not_link; auto. }
     destruct (N.ltb 1 (nlink (s_fs s) ino)); [|eapply Hplain; eauto].
     rewrite bind_run in H. unfold get_links at 1 in H.
@@ -458,17 +477,17 @@ Section Copy.
       assert (S2 : stays d s (mk s f2)) by (apply stays_grows; auto).
       rewrite expect_ok_run in H.
       destruct P2 as [[e ->]|[-> (i & Ei & Hbi & _)]]; injection H as <- <-.
-      + split; [apply stays_stays_ok; auto|discriminate].
-      + split; [apply stays_stays_ok; auto|]. intros _.
+      + split; [apply stays_stays_ok; auto|split; [reflexivity|discriminate]].
+      + split; [apply stays_stays_ok; auto|]. split; [reflexivity|]. intros _.
         rewrite (tgt_ino_nf c f0 dr dcs _ cs1 d1 x1 i T1 Ei) in Hb1. inversion Hb1; subst i1.
         exists i. split; [split; [exact Hbi|right; auto]|]. split; auto.
         apply isfile_not_link. apply G2. exact Hf1.
     - (* record the target, copy *)
       rewrite bind_run in H. unfold add_link at 1 in H.
-      set (s0 := {| s_fs := s_fs s; s_links := (ino, tpath cs x) :: s_links s; s_reads := s_reads s |}) in H.
+      set (s0 := {| s_fs := s_fs s; s_links := (ino, tpath cs x) :: s_links s; s_parents := s_parents s; s_reads := s_reads s |}) in H.
       assert (T0 : Tgt (s_fs s0) cs d x) by exact T.
-      destruct (copy_file_spec s0 s' r cs d x src T0 Hab H) as ((C1 & A1 & L1 & K1) & EL1 & G1 & P1).
-      split.
+      destruct (copy_file_spec s0 s' r cs d x src T0 Hab H) as ((C1 & A1 & L1 & K1 & Q1) & EL1 & G1 & P1).
+      split; [|split; [exact Q1|]].
       + split; auto. split; auto. split; [|exact K1]. intros [a ->] L0.
         destruct a. destruct (P1 eq_refl) as (i & [Hb Hs] & Hbi & Hf).
         intros e He. rewrite EL1 in He. simpl in He. destruct He as [<-|He].
@@ -542,7 +561,7 @@ Section Copy.
   Lemma stays_ok_pre {A} d s1 s2 s3 (r : A + N) : is_dir (s_fs s1) d = true ->
     stays d s1 s2 -> stays_ok d s2 s3 r -> stays_ok d s1 s3 r.
   Proof.
-    intros Hd (C2 & A2 & L2 & K2) (C3 & A3 & L3 & K3). split; auto. split; [eapply above_trans; eauto|].
+    intros Hd (C2 & A2 & L2 & K2 & _) (C3 & A3 & L3 & K3). split; auto. split; [eapply above_trans; eauto|].
     split; [auto|eapply keeps_new_trans; eauto].
   Qed.
 
